@@ -22,10 +22,19 @@ CFG = dict(
     level_note="Trusted: Coq kernel; the hand-written model (tie = sampled correspondence on every applied batch: trees compared with "
                "ids, kinds, classes, raws and structure); positions and source_fixes are not modelled (no_source_fixes monitored); rule "
                "bodies and the reflow engine are oracles whose output (the fix lists) is recorded data; the dialect lexer is an oracle in C06_text.",
-    rule="inputs: 23 hand-written token-adjacency probes x layout configs, 9 minimised earlier failures with their configuration, and every 4th (quick) / every (thorough) dialect fixture "
+    rule="inputs: 30 hand-written token-adjacency probes x layout configs, 9 minimised earlier failures with their configuration, and every 4th (quick) / every (thorough) dialect fixture "
          "as is, whitespace-scrambled (every whitespace run replaced by random spaces/tabs/newlines, newline kept after inline comments) "
          "and collapsed to single spaces, each under one (quick) / four (thorough) of 9 layout configurations (indent unit/size, comma "
          "and operator line position, max line length 0/20/30/40/80, trailing comments before/after), rules = layout, 13 dialects. "
+         "Gap variations (the same tokens, one or two gaps between them given another shape out of: nothing, one space, three spaces, line break, "
+         "empty line, line break + indent; a line break is kept after an inline comment): every single-gap variation (all gaps, both file ends) of the "
+         "probes and of 15 sibling probes (several CTEs / select targets / set operators / statements / function calls / operators / WHEN branches / value "
+         "tuples in one statement) under the default and randomly another layout configuration, the separator gaps (after , ) ; before , ; and the file ends) "
+         "of the sibling probes again under comma-leading, operator-trailing and maxlen20-after, every two-gap variation over the separator gaps of the "
+         "sibling probes (quick: one in four), and the 13 layout rules' own fixture snippets as they are plus 4 (quick, separator gaps) / 40 (thorough, all gaps) "
+         "single-gap variations each. Rule selections: every probe, gap variation and corpus file is run with rules = layout and then again with each rule "
+         "that proposed fixes selected alone (not LT01, which is first in the pack; LT02 alone only for the probes in the quick tier), since 'only layout rules "
+         "selected' includes selections of fewer rules, where a rule meets the input as written. "
          "Per applied batch: case 'batch' = Gallina apply_batch(before, fixes) must equal the real tree after; per input: case 'run' = "
          "Gallina run over all batches must end in the real final tree and run_okb must equal the conjunction of the harness monitors; "
          "case 'synth' = random fix batches (all edit types, pairs in both orders, duplicates, conflicting entries, anchors on tokens / nodes / "
@@ -33,7 +42,11 @@ CFG = dict(
          "Direct: code tokens of lex(source) = lex(fix(source)), comment multisets equal, final tree code tokens/comments = lex(fix(source)), "
          "every batch code-neutral on the real trees. non-trivial = batch with >= 3 fixes or >= 2 edit types / run with >= 2 batches; "
          "distinct = distinct (args, expected) terms",
-    assumptions=["source_fixes are empty (raw templater): previous_versions is modelled on the raw text only (monitor no_source_fixes)",
+    assumptions=["the rule selection of the 'alone' runs is set on a copy of the layout linter's configuration (keys rules / rule_allowlist of the core section) "
+                 "instead of re-reading a configuration text; monitor selection_equals_configured compares the resulting rule packs with linters configured from text",
+                 "linting leaks memory inside the library (about 80-150 KB per call on a two-line input): the harness runs the items in a sequence of child "
+                 "processes (4 quick / 24 thorough) and merges their result lines in item order; the output is byte-identical to a single-process run",
+                 "source_fixes are empty (raw templater): previous_versions is modelled on the raw text only (monitor no_source_fixes)",
                  "position markers are not modelled (C12's subject); apply_fixes' unwrap of a missing marker is not reachable in the model",
                  "a crash of fix (C03's subject) or an unlexable source leaves nothing to observe: such inputs are counted and skipped",
                  "code-neutrality of each batch and re-lex stability of the final tree are observed on every run, not proved; a failure is "
